@@ -135,11 +135,11 @@ class TemporalDifferenceLearning(Learns):
         @FunctionalPolicy
         @lru_cache(maxsize=None)
         def policy(s):
-            try:
+            if s in q:
                 action_vals = q[s]
                 maxq = max(action_vals.values())
                 max_actions = [a for a in action_vals.keys() if action_vals[a] == maxq]
-            except KeyError:
+            else: # never visited (q may be a table that creates entries on access)
                 max_actions = mdp.actions(s)
             return DictDistribution.uniform(max_actions)
         return policy
